@@ -74,7 +74,7 @@ func c17Helper(t *testing.T, run *h.Run, c c17Case) {
 			if (sch.failures > 0) != cleanupFalse {
 				viol("C17/lost: PodsCleanupDone does not reflect whether clean-up deletions failed", fmt.Sprintf("failures=%d PodsCleanupDone=False:%v", sch.failures, cleanupFalse))
 			}
-			if c.Kind == "cleanup-active" {
+			{
 				n := 0
 				if agg, ok := err.(utilserrors.Aggregate); ok {
 					n = len(agg.Errors())
@@ -86,7 +86,11 @@ func c17Helper(t *testing.T, run *h.Run, c c17Case) {
 					if c.RecentRU {
 						when = "within 5 minutes of the rolling update start"
 					}
-					viol("C17/lost: the error returned by ManageDeployment does not hold the failed clean-up deletions ("+when+")", fmt.Sprintf("%d failures injected, returned error holds %d", sch.failures, n))
+					fn := "ManageDeployment"
+					if c.Kind == "cleanup-canary" {
+						fn, when = "ManageCanaryDeployment", "canary role"
+					}
+					viol("C17/lost: the error returned by "+fn+" does not hold the failed clean-up deletions ("+when+")", fmt.Sprintf("%d failures injected, returned error holds %d", sch.failures, n))
 				}
 			}
 			run.Nontrivial(fmt.Sprintf("helper:%s:k=%d:f=%d", c.Kind, c.K, sch.failures))
